@@ -3,6 +3,10 @@ from . import checks
 
 
 def run(prop, tier, seed_, replay=None):
+    if prop == "C18" and not replay:
+        from . import c18
+
+        return c18.run(tier, seed_)
     if prop in checks.CORE_PROPS:
         if replay:
             return checks.replay(prop, replay)
@@ -15,4 +19,8 @@ def run(prop, tier, seed_, replay=None):
         from . import c06
 
         return c06.run(tier, seed_)
+    if prop == "C07":
+        from . import nets
+
+        return nets.run(tier, seed_)
     raise SystemExit(f"unknown property {prop}")
